@@ -434,6 +434,8 @@ public:
     } else if (const auto *X = dyn_cast<CastExpr>(S)) {
       o["ck"] = X->getCastKindName();
       if (const auto *EC = dyn_cast<ExplicitCastExpr>(X)) o["tw"] = tyw(EC->getTypeAsWritten());
+    } else if (const auto *X = dyn_cast<CXXDependentScopeMemberExpr>(S)) {
+      o["member"] = X->getMember().getAsString();
     } else if (const auto *X = dyn_cast<CXXThrowExpr>(S)) {
       if (X->getSubExpr())
         o["thrown_t"] = ty(X->getSubExpr()->getType().getNonReferenceType().getUnqualifiedType());
